@@ -57,7 +57,9 @@ class Runner:
     def region(self):
         from csep.core.regions import CartesianGrid2D
         # two cells of 400 degrees: every full-range coordinate (lon = 180, lat = 90 included) lies inside
-        return CartesianGrid2D.from_origins(self.numpy.array([[-180.0, -90.0], [220.0, -90.0]]), dh=400.0)
+        # (a space-magnitude region: the magnitude bins bound to it are part of what must survive)
+        return CartesianGrid2D.from_origins(self.numpy.array([[-180.0, -90.0], [220.0, -90.0]]), dh=400.0,
+                                            magnitudes=self.numpy.array([-2.0, 4.95, 5.05, 8.5]))
 
     def make(self, src, table):
         from csep.core.catalogs import CSEPCatalog
@@ -99,7 +101,8 @@ class Runner:
         reg = False
         if cat.region is not None:
             r0 = self.region()
-            ok = guarded(lambda: cat.region.to_dict() == r0.to_dict() and [int(x) for x in cat.region.get_index_of([-90.0, 10.0, 300.0], [-45.0, 45.0, 0.0])] ==
+            ok = guarded(lambda: cat.region.to_dict() == r0.to_dict() and getattr(cat.region, 'magnitudes', None) is not None and
+                         [float(x) for x in cat.region.magnitudes] == [float(x) for x in r0.magnitudes] and [int(x) for x in cat.region.get_index_of([-90.0, 10.0, 300.0], [-45.0, 45.0, 0.0])] ==
                          [int(x) for x in r0.get_index_of([-90.0, 10.0, 300.0], [-45.0, 45.0, 0.0])])
             reg = True if ok is True else 'broken'
         return {'evs': evs, 'cid': cid, 'name': name, 'region': reg}, exact
